@@ -1162,13 +1162,22 @@ pub fn run(s: &Session) {
         [era, block] tag (transactions: through every era's Tx type that accepts them) and re-encoded; plus decode(to_vec(inner)) == inner with full \
         consumption for every KeepRaw part reached (header, bodies, witness sets, auxiliary data, outputs, datums, scripts, redeemers) and strict \
         isomorphism of the header bytes taken out of each block. Non-trivial artefact = a block with >= 1 transaction, a transaction or a header; \
-        distinct = distinct bytes. (b) values of 60+ era types built from a plain choice sequence (no seed) by builders that construct only representable \
+        distinct = distinct bytes. (a') every Byron artefact of test_data (blocks incl. the epoch-boundary block, byron*.tx, byron1.header): the header \
+        is cut out of the block with the independent reader, decoded on its own as byron::BlockHead / byron::EbbHead (no KeepRaw) and must re-encode \
+        byte-identically with full consumption; the decoded header / block / transaction must have, item by item, the shape the Byron CDDL gives it \
+        (shape oracle written with cborx: array lengths, variant numbers, field positions, tag 24 / 258 wrapping, definite/indefinite form, minimal heads). \
+        (b) values of 90 families of era types built from a plain choice sequence (no seed) by builders that construct only representable \
         values (KeepRaw parts built by decoding their own encoding; NonEmptySet/NonEmptyKeyValuePairs non-empty; PositiveCoin >= 1; NonZeroInt != 0; \
         denominators >= 1; Constr 102 with Some index; byron Other tags outside the known variants); oracle decode(to_vec(v)) == v (PartialEq, Debug \
-        rendering where PartialEq is not derived), full consumption, encoding is one well-formed item per the independent reader. Non-trivial value = \
+        rendering where PartialEq is not derived), full consumption, encoding is one well-formed item per the independent reader; for every Byron type additionally the shape oracle on the \
+        encoder's output (expected skeleton built from the value's named fields per the CDDL, never from the library's encoder). Non-trivial value = \
         exercised a hand-written codec or chose an enum variant other than the first; distinct = distinct (type, encoded bytes)");
     s.assume("artefacts the library does not decode (conway8.block needs the `relaxed` feature) are outside the property and counted as discarded");
     s.assume("a transaction artefact is checked through every era Tx codec that accepts it (what MultiEraTx::decode may pick)");
+    s.assume("shape oracle: where chain and Byron CDDL differ the chain wins (ssccert field order, sscshares as map of maps, upprop.data as a map); \
+        for the open-ended `Other(tag, bytes)` variants both a plain byte string and #6.24(bytes) are accepted; a `None` in a field the model (not the CDDL) \
+        declares optional is expected as minicbor-derive writes it (null, trailing ones dropped)");
+    s.assume("byron::Address payloads are opaque bytes for pallas-primitives (their codec lives in pallas-addresses, covered by C19)");
     s.assume("conway cost models of unknown languages (`unknown` non-empty) are generated only in the dedicated conway::CostModels family");
 
     // ---- (a) ----
@@ -1217,7 +1226,8 @@ pub fn run(s: &Session) {
     }
 
     // ---- (b) ----
-    s.forall("generated-values", s.pick(1_000_000, 10_000_000), value_case, check_value);
+    // 90 families since round 4 (the Byron ones build bigger values): 800 k keeps the quick tier where it was in wall time
+    s.forall("generated-values", s.pick(800_000, 10_000_000), value_case, check_value);
     if !s.replaying() {
         let mut missing = vec![];
         for t in TYPES {
